@@ -558,18 +558,31 @@ def walkLoop (nid : Nat) (dir : Int) (stop : Nat) :
           let g := r.1.lookupExact nid pgno subno
           walkLoop nid dir stop fuel g.1 g.2 pgno subno wrapped r.2
 
-def State.foreachPage (s : State) (nid pgno subno : Nat) (dir : Int) (stop fuel : Nat) :
+/-- `_vbi_cache_foreach_page`, start look-up of source shape `exact`:
+    `false`: `if ((cp = _vbi_cache_get_page (ca, cn, pgno, subno, -1))) subno = cp->subno; else if (VBI_ANY_SUBNO == subno)
+    subno = 0;` (0x3F7F read as the wildcard, finding C17-D7);
+    `true` (fixes/C17-turn-3f7f.diff): `cp = NULL; if (pgno >= 0x100 && pgno <= 0x8FF) { cp = page_by_pgno (ca, cn, pgno,
+    subno, -1); if (NULL != cp) cp = cache_page_ref (cp); }`, `subno` untouched. -/
+def State.foreachPageS (exact : Bool) (s : State) (nid pgno subno : Nat) (dir : Int) (stop fuel : Nat) :
     State × List Visit × Option Int :=
   match s.findNet nid with
   | none => (s, [], none)
   | some n =>
     if n.nCached = 0 then (s, [], some 0)
+    else if exact then
+      let r := if 0x100 ≤ pgno ∧ pgno ≤ 0x8FF then s.lookupExact nid pgno subno else (s, none)
+      walkLoop nid dir stop fuel r.1 r.2 pgno subno false []
     else
       let (s, cp) := s.getPage nid pgno subno 0xFFFFFFFF
       let sub : Int := match cp with
         | some p => p.subno
         | none => if subno = anySubno then 0 else subno
       walkLoop nid dir stop fuel s cp pgno sub false []
+
+/-- `_vbi_cache_foreach_page` of the current source (translate/gen_cache.py reads the shape of the start look-up) -/
+def State.foreachPage (s : State) (nid pgno subno : Nat) (dir : Int) (stop fuel : Nat) :
+    State × List Visit × Option Int :=
+  s.foreachPageS walkStartExact nid pgno subno dir stop fuel
 
 /-! ## the operations of the line protocol -/
 
@@ -678,5 +691,72 @@ def step (s : State) : Op → State × Out
     (({ s with memLimit := n } : State).deleteSurplusPages, .ok)
 
 def run (s : State) (ops : List Op) : State := ops.foldl (fun s op => (step s op).1) s
+
+/-! ## the two source shapes of `_vbi_cache_put_page` (finding F17 and its repair)
+
+`putTail` / `putPage` / `step` above follow the shape of the source as it was when F17 was found: the look-up
+under the key of `putKey` finds ONE version (the most recently used one that matches) and only that one is
+replaced.  The repair `fixes/C10-put-replaces-all-versions.diff` adds, for the single-version key classes
+(`subno_mask == 0`), a walk over the hash chain that deletes every other cached version of the page number
+and recomputes `memory_available`.  translate/gen_cache.py reads which shape the current source has
+(`Gen.Cache.putReplacesAllVersions`); `stepF fix` is the model of shape `fix`, `stepCur` the one of the current
+source (what the driver runs).  Every theorem of Props/C10*.lean that is not a witness of F17 is stated for
+both shapes. -/
+
+/-- `_vbi_cache_put_page` after the look-up of the version to replace: death row, replacement
+    (`putTail` is `pageByPgno` followed by this, by `rfl`) -/
+def State.putRest (s : State) (nid : Nat) (a : PutArg) (k1 : Nat) (old : Option Page) (avail0 : Int) :
+    Except Err (State × Option Page) :=
+  let v := s.putVictim old avail0
+  match collectAll v.1 v.2.1 (pageSize a.func a.x26 a.x28 : Int) v.2.2.1 v.2.2.2 with
+  | .error e => .error e
+  | .ok none => .ok (v.1, none)
+  | .ok (some (avail, row)) => v.1.putReplace nid a k1 avail row
+
+/-- repaired shape: `FOR_ALL_NODES (cp2, cp3, ca->hash + hash (cp->pgno), hash_node) if (cp2 != old_cp
+    && cp2->pgno == cp->pgno && cp2->network == cn) delete_page (ca, cp2);` - the body unlinks only the
+    current node, hence a walk over the chain as it was at loop entry -/
+def State.dropOthers (s : State) (nid pgno keep : Nat) : State :=
+  ((s.pages.filter (fun q => q.pri ≠ .zombie ∧ q.pgno = pgno ∧ q.net = nid ∧ q.id ≠ keep)).map (·.id)).foldl
+    (fun s id => s.deletePage id) s
+
+/-- repaired shape of the part of `_vbi_cache_put_page` after the key was chosen -/
+def State.putTailR (s : State) (nid : Nat) (a : PutArg) (k1 k2 : Nat) (avail0 : Int) : Except Err (State × Option Page) :=
+  let r := s.pageByPgno nid a.pgno (k1 &&& k2) k2
+  match r.2 with
+  | some o =>
+    if k2 = 0 then
+      let s1 := r.1.dropOthers nid a.pgno o.id
+      s1.putRest nid a k1 (some o) ((s1.memLimit : Int) - s1.memUsed)
+    else r.1.putRest nid a k1 (some o) avail0
+  | none => r.1.putRest nid a k1 none avail0
+
+def State.putTailF (fix : Bool) (s : State) (nid : Nat) (a : PutArg) (k1 k2 : Nat) (avail0 : Int) :
+    Except Err (State × Option Page) :=
+  if fix then s.putTailR nid a k1 k2 avail0 else s.putTail nid a k1 k2 avail0
+
+/-- `_vbi_cache_put_page` of source shape `fix` (`false`: as found, `true`: repaired) -/
+def State.putPageF (fix : Bool) (s : State) (nid : Nat) (a : PutArg) : Except Err (State × Option Page) :=
+  match s.findNet nid with
+  | none => .error (.assertFail "cn")
+  | some cn =>
+    if a.pgno &&& 0xFF = 0xFF then .ok (s, none)
+    else if a.pgno < 0x100 ∨ a.pgno > 0x8FF then .error (.assertFail "page_stat")
+    else
+      let key := putKey (cn.getStat a.pgno).ptype a.pgno a.subno
+      s.putTailF fix nid a key.1 key.2 ((s.memLimit : Int) - s.memUsed)
+
+/-- one API call on source shape `fix`; only `put` differs between the shapes -/
+def stepF (fix : Bool) (s : State) : Op → State × Out
+  | .put nid a =>
+    match s.putPageF fix nid a with
+    | .ok (s', p) => (s', .page p)
+    | .error e => (s, .err e)
+  | op => step s op
+
+def runF (fix : Bool) (s : State) (ops : List Op) : State := ops.foldl (fun s op => (stepF fix s op).1) s
+
+/-- the model of the current source -/
+def stepCur (s : State) (op : Op) : State × Out := stepF putReplacesAllVersions s op
 
 end Zvbi.Cache
